@@ -483,6 +483,44 @@ pub fn cases(tier: Tier) -> Vec<Case> {
     v
 }
 
+// ---- per-credential PRF inputs with several entries (a HashMap-typed member: its Debug rendering
+// has no stable order, so it is compared entry by entry): every subset of six ids of different
+// lengths and byte orders, inside makeCredential and getAssertion requests, survives the round trip
+fn ebc_ids() -> Vec<Vec<u8>> {
+    vec![vec![2; 16], vec![1; 32], vec![3; 8], vec![1; 16], vec![2], vec![1, 0]]
+}
+fn ebc_one(mask: u8, get: bool) -> Vec<(String, String)> {
+    let ids: Vec<Vec<u8>> = ebc_ids().into_iter().enumerate().filter(|(i, _)| mask & (1 << i) != 0).map(|(_, x)| x).collect();
+    let map: std::collections::HashMap<passkey_types::Bytes, AuthenticatorPrfValues> = ids.iter().enumerate().map(|(k, id)| (id.clone().into(), AuthenticatorPrfValues { first: [k as u8 + 1; 32], second: (k % 2 == 1).then_some([0xF0 + k as u8; 32]) })).collect();
+    let prf = AuthenticatorPrfInputs { eval: None, eval_by_credential: Some(map.clone()) };
+    let mut bytes = vec![];
+    let back: Result<Option<AuthenticatorPrfInputs>, String> = par::catch(|| {
+        if get {
+            let req = ga_request("example.com", Some(ids.clone()), false, true, true, false, Some(get_assertion::ExtensionInputs { hmac_secret: None, prf: Some(prf) }));
+            ciborium::ser::into_writer(&req, &mut bytes).map_err(|e| e.to_string())?;
+            ciborium::de::from_reader::<get_assertion::Request, _>(&bytes[..]).map(|r| r.extensions.and_then(|e| e.prf)).map_err(|e| e.to_string())
+        } else {
+            let req = mc_request("example.com", &[1], None, true, true, true, false, Some(make_credential::ExtensionInputs { hmac_secret: None, hmac_secret_mc: None, prf: Some(prf) }));
+            ciborium::ser::into_writer(&req, &mut bytes).map_err(|e| e.to_string())?;
+            ciborium::de::from_reader::<make_credential::Request, _>(&bytes[..]).map(|r| r.extensions.and_then(|e| e.prf)).map_err(|e| e.to_string())
+        }
+    })
+    .unwrap_or_else(|p| Err(format!("panic: {p}")));
+    let what = if get { "getAssertion.request" } else { "makeCredential.request" };
+    match back {
+        Err(e) => vec![(format!("type={what}/kind=round-trip-fails"), format!("evalByCredential with the ids {:?}: own serialisation does not parse: {e}", ids.iter().map(|i| hex(i)).collect::<Vec<_>>()))],
+        Ok(got) => {
+            let got = got.and_then(|p| p.eval_by_credential).unwrap_or_default();
+            let same = got.len() == map.len() && map.iter().all(|(k, v)| got.get(k).is_some_and(|g| g.first == v.first && g.second == v.second));
+            if same {
+                vec![]
+            } else {
+                vec![(format!("type={what}/kind=round-trip-differs"), format!("evalByCredential with the ids {:?} reads back with {} entries / other values", ids.iter().map(|i| hex(i)).collect::<Vec<_>>(), got.len()))]
+            }
+        }
+    }
+}
+
 // ---- status bytes
 
 fn status_findings() -> (Vec<Finding>, u64) {
@@ -528,6 +566,15 @@ fn status_findings() -> (Vec<Finding>, u64) {
 }
 
 pub fn run(ctx: &Ctx) -> Result<Run, String> {
+    let mut ebc = Stats::new();
+    for mask in 0..64u8 {
+        for get in [false, true] {
+            ebc.case(&(mask, get, "ebc"), true, "per-credential-map");
+            for (k, d) in ebc_one(mask, get) {
+                ebc.finding(Finding::new(k, d, json!({"ebc": {"mask": mask, "get": get}})));
+            }
+        }
+    }
     let cs = cases(ctx.tier);
     let mut stats = par::sweep_cases(&cs, ctx.threads, |c, st| {
         let (fs, o) = eval(c);
@@ -539,12 +586,13 @@ pub fn run(ctx: &Ctx) -> Result<Run, String> {
     stats.count("status_byte_checks", n);
     stats.outcome("status-bytes");
     stats.findings_from(fs);
+    stats.merge(ebc);
     for c in cs.iter().step_by(cs.len() / 4 + 1) {
         stats.samples.push(serde_json::to_value(c).unwrap());
     }
     let mut run = Run::from_stats(
         "exploration",
-        "2..300 unknown members appended at once to the full and to the minimal message of each type (counts around the map-header boundaries 23/24 and 255/256): still the same message; for each of the six CTAP2 message types: all presence patterns of the optional members x 4 nested-value variants (one with repeated entries in every list, one with every nested optional structure and list present but empty; plus a variant with byte-string members of more than 4 KiB), serialised with ciborium and inspected as a generic CBOR value (one map spanning all serialised bytes; keys = the specification's integers for the present members, ascending, no nulls), round-tripped; mutations of the encodings: every integer key 0..255 not assigned to a member inserted (every position for the full pattern, at the end otherwise; all positions in thorough) with int/map/bytes values, unknown text keys at every position (also case and underscore variants of every member name), each required member removed or moved to a key of 2, 3 or 5 bytes with the same low byte (must be an error), each present member repeated under such a wide key with another value (ignored or rejected, never taken), each present member duplicated, options omitted / empty; all 256 status bytes converted both ways and injected as lookup failure under Client::authenticate. Every case is distinct",
+        "per-credential PRF inputs for every subset of six ids of different lengths and byte orders inside makeCredential / getAssertion requests, compared entry by entry after the round trip; 2..300 unknown members appended at once to the full and to the minimal message of each type (counts around the map-header boundaries 23/24 and 255/256): still the same message; for each of the six CTAP2 message types: all presence patterns of the optional members x 4 nested-value variants (one with repeated entries in every list, one with every nested optional structure and list present but empty; plus a variant with byte-string members of more than 4 KiB), serialised with ciborium and inspected as a generic CBOR value (one map spanning all serialised bytes; keys = the specification's integers for the present members, ascending, no nulls), round-tripped; mutations of the encodings: every integer key 0..255 not assigned to a member inserted (every position for the full pattern, at the end otherwise; all positions in thorough) with int/map/bytes values, unknown text keys at every position (also case and underscore variants of every member name), each required member removed or moved to a key of 2, 3 or 5 bytes with the same low byte (must be an error), each present member repeated under such a wide key with another value (ignored or rejected, never taken), each present member duplicated, options omitted / empty; all 256 status bytes converted both ways and injected as lookup failure under Client::authenticate. Every case is distinct",
         true,
         stats,
     );
@@ -553,6 +601,9 @@ pub fn run(ctx: &Ctx) -> Result<Run, String> {
 }
 
 pub fn replay(_ctx: &Ctx, case: &Value) -> Result<Vec<Finding>, String> {
+    if let Some(e) = case.get("ebc") {
+        return Ok(ebc_one(e["mask"].as_u64().unwrap_or(0) as u8, e["get"].as_bool().unwrap_or(false)).into_iter().map(|(k, d)| Finding::new(k, d, case.clone())).collect());
+    }
     if case.get("status_byte").is_some() {
         let b = case["status_byte"].as_u64().unwrap_or(0) as u8;
         return Ok(status_findings().0.into_iter().filter(|f| f.case["status_byte"].as_u64() == Some(u64::from(b))).collect());
